@@ -476,6 +476,7 @@ func (fr *Frame) callBuiltin(site ssa.Instruction, b *ssa.Builtin, c *ssa.CallCo
 		case *types.Slice:
 			return []Val{scalar(SLen(x))}
 		case *types.Map:
+			fr.guardCheck(st, site, c.Args[0], false)
 			return []Val{scalar(fc.mapLen(st, x, u))}
 		case *types.Basic:
 			return []Val{scalar(StrLen(x))}
@@ -646,10 +647,10 @@ func (fr *Frame) ghostInc(ev *EvalCtx, c *Clause, st *State) {
 		unsup("%s:%d: %v", c.File, c.Line, err)
 	}
 	call, ok := e.(ECall)
-	if !ok || len(call.Args) != 1 {
-		unsup("%s:%d: ghostinc name(key)", c.File, c.Line)
+	if !ok || len(call.Args) < 1 || len(call.Args) > 2 {
+		unsup("%s:%d: ghostinc name(key[, key2])", c.File, c.Line)
 	}
-	var key TV
+	var keys []*Term
 	func() {
 		defer func() {
 			if r := recover(); r != nil {
@@ -659,12 +660,20 @@ func (fr *Frame) ghostInc(ev *EvalCtx, c *Clause, st *State) {
 				panic(r)
 			}
 		}()
-		key = ev.eval(call.Args[0])
+		for _, a := range call.Args {
+			k := ev.eval(a)
+			if k.V.T == nil {
+				panic(evalErr{"ghostinc key must be scalar"})
+			}
+			keys = append(keys, k.V.T)
+		}
 	}()
-	if key.V.T == nil {
-		unsup("%s:%d: ghostinc key must be scalar", c.File, c.Line)
-	}
 	name := "gmap:" + call.Fn
-	arr := fc.ghost(st, name, ArrSort(key.V.T.Sort, SInt))
-	st.ghosts[name] = fc.sc.Define("gmap", Store(arr, key.V.T, Add(Select(arr, key.V.T), IntLit(1))))
+	arr := fc.ghostMapIn(st, call.Fn, keys)
+	if len(keys) == 1 {
+		st.ghosts[name] = fc.sc.Define("gmap", Store(arr, keys[0], Add(Select(arr, keys[0]), IntLit(1))))
+	} else {
+		row := Select(arr, keys[0])
+		st.ghosts[name] = fc.sc.Define("gmap", Store(arr, keys[0], Store(row, keys[1], Add(Select(row, keys[1]), IntLit(1)))))
+	}
 }
